@@ -21,7 +21,7 @@ import time
 import numpy as np
 
 from runtime import oracles_C07_C09 as O
-from runtime.common import close, use_repo
+from runtime.common import close, use_repo, rot_frame
 
 RULE = ("inner: all (start, end, min_segment_length) of the box, non-trivial when an admissible inner interval exists; greedy kernel: explicit "
         "candidate systems x inner intervals x score orders x thresholds, non-trivial when an anomaly is selected among >= 2 candidates; "
@@ -264,7 +264,7 @@ def check_detector(rec, inp):
     sc, agg, msize, tab = O.build_scorer(inp["scorer"], X, 4, n_table=max(n, Xfit.shape[0]))
     name = inp["scorer"].get("name", "table")
     info = {"threshold": None, "anomalies": None, "scores": None, "nt": False}
-    det, err = O.attempt(lambda: make_detector(inp, sc).fit(Xfit))
+    det, err = O.attempt(lambda: make_detector(inp, sc).fit(rot_frame(Xfit, 1)))
     if err is not None:
         info["nt"] = failure(rec, err, Xfit.shape[0], m, M, g, name, inp, "CircularBinarySegmentation.fit", "C09.detector@fit")
         return info
@@ -272,7 +272,7 @@ def check_detector(rec, inp):
     info["threshold"] = th
     if not (th >= 0):                 # outside the quantifier
         return info
-    res, err = O.attempt(lambda: det.predict(X))
+    res, err = O.attempt(lambda: det.predict(rot_frame(X, 2)))
     if err is not None:
         info["nt"] = failure(rec, err, n, m, M, g, name, inp, "CircularBinarySegmentation.predict", "C09.detector@predict")
         return info
